@@ -1,4 +1,5 @@
 SPECIFICATION TraceSpec
 CONSTANTS NumIter = 1
  Rule = "fixed"
+ MaxRuns = 1
 CHECK_DEADLOCK FALSE
